@@ -16,16 +16,6 @@ theorem hasParent_iff (s : State) (v : Nat) :
     | none => simp [hR]
     | some R => cases hp : R.parent <;> simp [hR, hp]
 
-theorem selfParent_iff (s : State) (v : Nat) :
-    selfParent s v = true ↔ ∃ r R, repOf s v = some r ∧ s.reps r = some R ∧ R.parent = some r := by
-  unfold selfParent repObj
-  cases hr : repOf s v with
-  | none => simp
-  | some r =>
-    cases hR : s.reps r with
-    | none => simp [hR]
-    | some R => simp [hR]
-
 theorem emptyVar_false_iff (s : State) (v : Nat) :
     emptyVar s v = false ↔ ∃ r R, repOf s v = some r ∧ s.reps r = some R ∧ R.call = true := by
   unfold emptyVar repObj
@@ -36,31 +26,25 @@ theorem emptyVar_false_iff (s : State) (v : Nat) :
     | none => simp [hR]
     | some R => simp [hR]
 
-theorem replaceCheck_none {s : State} {d x : Nat} {ex : Bool} (h : replaceCheck s d x ex = none) :
-    (ownKind s d = true → ownedBy s d = false ∧ ownedBy s x = false) ∧
-    (ex = true → hasParent s d = true → ownKind s d = false ∧ selfParent s d = false) := by
-  unfold replaceCheck at h
-  split at h
-  · simp at h
-  · rename_i h1
-    split at h
-    · simp at h
-    · rename_i h2
-      constructor
-      · intro hk; simp [hk] at h1; exact h1
-      · intro he hp; simp [he, hp] at h2; exact h2
+theorem deleteCheck_none {s : State} {d : Nat} (h : deleteCheck s d = none) :
+    ownKind s d = true → ownedBy s d = false := by
+  unfold deleteCheck at h
+  intro hk
+  cases ho : ownedBy s d with
+  | false => rfl
+  | true => simp [hk, ho] at h
 
 /-- a change of `blocked_` is invisible to the tests -/
 theorem tests_modSlot_blocked (s : State) (d : Nat) (b : Bool) (v : Nat) :
     let s0 := s.modSlot d fun D => { D with blocked := b }
-    ownKind s0 v = ownKind s v ∧ hasParent s0 v = hasParent s v ∧ selfParent s0 v = selfParent s v ∧
+    ownKind s0 v = ownKind s v ∧ hasParent s0 v = hasParent s v ∧
     emptyVar s0 v = emptyVar s v ∧ ownedBy s0 v = ownedBy s v ∧ (s0.slots v).isSome = (s.slots v).isSome := by
   intro s0
   have hrep : ∀ w, repOf s0 w = repOf s w := fun w => repOf_modSlot_blocked s d b w
   have hreps : s0.reps = s.reps := reps_modSlot _ _ _
   have hobj : repObj s0 v = repObj s v := by unfold repObj; rw [hrep, hreps]
   refine ⟨by unfold ownKind; rw [hobj], by unfold hasParent; rw [hobj],
-    by unfold selfParent; rw [hobj, hrep], by unfold emptyVar; rw [hobj], ?_, ?_⟩
+    by unfold emptyVar; rw [hobj], ?_, ?_⟩
   · unfold ownedBy anyRep; rw [hreps, nextRep_modSlot]
   · rw [slots_modSlot]; by_cases h : v = d <;> simp [h]
 
@@ -77,7 +61,7 @@ theorem moveOut_pre {s : State} (hw : WF s) {x r : Nat} {R : Rep} (hx : repOf s 
     (∀ w, repOf (moveOut x r s) w ≠ some r) ∧
     (∀ w, w ≠ x → (moveOut x r s).slots w = s.slots w) ∧
     (∀ q, q ≠ r → (moveOut x r s).reps q = s.reps q) := by
-  have h := hw.inv
+  have h := hw.invS
   have hc := conns_weakNotify r s R hR
   have hu := h.repUniq
   have hdisj : ∀ c, c ∈ R.cbs → ∀ q Q, s.reps q = some Q → c ∈ Q.cbs → q = r := by
@@ -87,7 +71,7 @@ theorem moveOut_pre {s : State} (hw : WF s) {x r : Nat} {R : Rep} (hx : repOf s 
     rw [hw1] at hw2; cases hw2
     rw [hr1] at hr2; cases hr2; rfl
   unfold moveOut
-  have hinv : Inv ((weakNotify r s).setSlot x (some ⟨none, false⟩)) := by
+  have hinvS : InvS ((weakNotify r s).setSlot x (some ⟨none, false⟩)) := by
     refine { repAlive := ?_, repUniq := ?_, connReg := ?_, cbsConn := ?cc, cbsNodup := ?_, parentOk := ?_,
              trkReg := ?_, trkEnt := ?_, trkNodup := ?_, refOk := ?_, ownOk := ?_, repBound := ?_ }
     case cc =>
@@ -100,7 +84,8 @@ theorem moveOut_pre {s : State} (hw : WF s) {x r : Nat} {R : Rep} (hx : repOf s 
         have hcn : c ∉ R.cbs := fun hm => hqr (hdisj c hm q Q hQ hcQ)
         have hwx : w ≠ x := fun he => by subst he; rw [hx] at hrw; cases hrw; exact hqr rfl
         exact ⟨w, by rw [hc c, if_neg hcn]; exact hw, by simp [hwx, hrw]⟩
-    all_goals inv_clause h with [repOf_eq]
+    all_goals invs_clause h with [repOf_eq]
+  have hinv := hinvS.inv
   refine ⟨hinv, ?_, ?_, ?_, ?_, ?_, ?_⟩
   · have := hw.idle; unfold Idle at *; st_simp; exact this
   · have := hw.held; unfold Held at *; st_simp; grind [repOf_eq]
@@ -140,54 +125,18 @@ theorem wf_mvS {s : State} (hw : WF s) {j i : Nat} (hj : s.slots j = none) : WF 
           | some p => exact absurd ((hasParent_iff s i).mpr ⟨r, R, p, hrep, hR, hpp⟩) hp
         obtain ⟨h1, h2, h3, h4, h5, h6, -⟩ := moveOut_pre hw hrep hR hRp
         have hji : j ≠ i := by intro he; subst he; rw [hi] at hj; cases hj
-        exact wf_adoptSet h1 h2 _ h3 h4 hRp h5 (by rw [h6 j hji]; exact hj)
+        exact wf_adoptSet h1 h2 _ h3 h4 hRp rfl h5 (by rw [h6 j hji]; exact hj)
 
-/-! ### the exchange with the language rules -/
+/-! ### the exchange on a state with a fresh representation -/
 
-theorem wf_exchange_fresh {s sN : State} {N : Rep} (hw : WF s) (hF : Fresh s sN N) {d : Nat}
+theorem wf_exchange_fresh {s sN : State} {N : Rep} (hF : Fresh s sN N) {d : Nat}
     (hd : (s.slots d).isSome = true)
-    (hk : ownKind s d = true → ownedBy s d = false)
-    (hp : hasParent s d = true → ownKind s d = false ∧ selfParent s d = false)
     (he : (exchangeRep d s.nextRep sN).err = false) : WF (exchangeRep d s.nextRep sN) := by
   have hdN : ∃ D, sN.slots d = some D := by
     have := hF.aliveS d; rw [hd] at this
     cases hx : sN.slots d with
     | none => rw [hx] at this; simp at this
     | some D => exact ⟨D, rfl⟩
-  refine wf_exchange hF.inv hF.idle hF.held hF.self hF.par hF.orph hdN ?_ he
-  intro q Q' hq hQ'
-  have hqs : repOf s d = some q := by rw [← hF.repOf d]; exact hq
-  have hqn : q ≠ s.nextRep := fun h => hF.orph d (by rw [← h]; exact hq)
-  obtain ⟨Q, hQ⟩ := hF.alive q Q' hQ' hqn
-  obtain ⟨Q'', hQ'', hfn, -, -, hpar⟩ := hF.old q Q hQ
-  rw [hQ'] at hQ''; cases hQ''
-  constructor
-  · rintro ⟨fid, h, t, hf⟩
-    have hkd : ownKind s d = true := (ownKind_iff s d).mpr ⟨q, Q, fid, h, t, hqs, hQ, by rw [← hfn]; exact hf⟩
-    have hno : ¬ Owned s d := fun ho => by
-      rw [(ownedBy_iff hw.inv.repBound d).mpr ho] at hk; exact absurd (hk hkd) (by simp)
-    by_cases hN : ∃ fid t, N.fn = some (.own fid d t)
-    · exact .inr hN
-    · left
-      rintro ⟨x, X', fid', t', hX', hf'⟩
-      by_cases hxn : x = s.nextRep
-      · subst hxn; rw [hF.self] at hX'; cases hX'; exact hN ⟨fid', t', hf'⟩
-      · obtain ⟨X, hX⟩ := hF.alive x X' hX' hxn
-        obtain ⟨X'', hX'', hfn', -⟩ := hF.old x X hX
-        rw [hX'] at hX''; cases hX''
-        exact hno ⟨x, X, fid', t', hX, by rw [← hfn']; exact hf'⟩
-  · intro p hpp
-    rcases hpar with hpar | ⟨-, hpar⟩
-    · right
-      rw [hpar] at hpp
-      have hhp : hasParent s d = true := (hasParent_iff s d).mpr ⟨q, Q, p, hqs, hQ, hpp⟩
-      obtain ⟨hk0, hs0⟩ := hp hhp
-      refine ⟨?_, ?_⟩
-      · intro hpq; subst hpq
-        rw [(selfParent_iff s d).mpr ⟨p, Q, hqs, hQ, hpp⟩] at hs0; simp at hs0
-      · rintro ⟨fid, h, t, hf⟩
-        rw [(ownKind_iff s d).mpr ⟨q, Q, fid, h, t, hqs, hQ, by rw [← hfn]; exact hf⟩] at hk0
-        simp at hk0
-    · left; rw [hpar] at hpp; cases hpp; rfl
+  exact wf_exchange hF.inv hF.idle hF.held hF.self hF.par hF.cbs hF.orph hdN he
 
 end Sigc.SlotG
